@@ -76,7 +76,9 @@ StringDictionaryPFC::StringDictionaryPFC(IteratorDictString *it,
 
     // Checking the available space in textStrings and
     // realloc if required
-    while ((bytesStrings + (2 * lenCurrent)) > reservedStrings)
+    // (an internal string takes up to lenCurrent + 2 bytes: prefix length,
+    // suffix and terminator, which exceeds 2 * lenCurrent for 1-byte strings)
+    while ((bytesStrings + (2 * lenCurrent) + 2) > reservedStrings)
       reservedStrings = Reallocate(&textStrings, reservedStrings);
 
     if ((elements % bucketsize) == 0) {
